@@ -31,7 +31,7 @@ use crate::typed_ast::{self, DType, DTypeFactor, Expression, StructInfo, StructK
 use crate::{decorator, ffi, suggestion};
 
 use compact_str::{CompactString, ToCompactString, format_compact};
-use const_evaluation::evaluate_const_expr;
+pub(crate) use const_evaluation::evaluate_const_expr;
 use constraints::{Constraint, ConstraintSet, ConstraintSolverError, TrivialResolution};
 use environment::{Environment, FunctionMetadata, FunctionSignature};
 use itertools::Itertools;
